@@ -4,7 +4,7 @@
 #define VP_RR_GHOSTS 1
 #include "modules/xrep/env.h"
 #include "modules/message/spec.h"
-#include "include/env_mem.h"
+#include "modules/rep/mem64.h"
 #include "modules/lmq/spec.h"
 #include "modules/xrep/spec.h"
 #include "modules/rep/spec.h"
